@@ -7,3 +7,7 @@ static inline void PedersenCommitmentScheme__PublishGroup(PedersenCommitmentSche
 /* new GrothSKC(n, in, ell_e, fieldsize, subgroupsize) = allocation + the (extracted) stream constructor */
 static inline GrothSKC *GrothSKC__new_5(size_t n, ios_t *in, unsigned long ell_e, unsigned long f, unsigned long s)
 { GrothSKC *o = (GrothSKC *)__verif_new(sizeof(GrothSKC)); GrothSKC__ctor_stream(o, n, in, ell_e, f, s); if (__tmcg_thrown) return 0; return o; }
+/* PedersenCommitmentScheme::CheckGroup is under contract in group C06_pedersen; here the class is opaque and the
+ * verdict of its group check a ghost field of the object */
+#define PCG(c) ((c)->ghost_checkgroup_verdict != 0)
+static inline _Bool PedersenCommitmentScheme__CheckGroup(PedersenCommitmentScheme *c) { return PCG(c); }
